@@ -108,3 +108,150 @@ Section Listed.
     - right. exists parent, name, a, b, c. split; [apply Hsub; exact P1|]. split; [exact P2|exact P3].
   Qed.
 End Listed.
+
+Lemma format_path_nounique cf seen path is_dir dir_only out seen' :
+  format_path cf seen true path is_dir dir_only = (out, seen') ->
+  out = [if dir_only || (g_mark cf && is_dir) then pjoin path [] else path] /\ seen' = seen.
+Proof. unfold format_path. intros H. injection H as <- <-. split; reflexivity. Qed.
+
+Lemma format_path_unique_shape cf seen path is_dir dir_only out seen' :
+  format_path cf seen false path is_dir dir_only = (out, seen') ->
+  out = [] \/ out = [if dir_only || (g_mark cf && is_dir) then pjoin path [] else path].
+Proof.
+  unfold format_path. intros H.
+  destruct (existsb _ seen); injection H as <- <-; [left|right]; reflexivity.
+Qed.
+
+Lemma NoDup_app_one {A} (l : list A) x : NoDup l -> ~ In x l -> NoDup (l ++ [x]).
+Proof.
+  induction l as [|a l IH]; intros H Hn; cbn.
+  - constructor; [intros []|constructor].
+  - inversion H; subst. constructor.
+    + intro X. apply in_app_or in X as [X|[X|[]]]; [contradiction|subst; apply Hn; left; reflexivity].
+    + apply IH; [assumption|intro X; apply Hn; right; exact X].
+Qed.
+
+(* ---- C13: the output stage (exclusion filter, formatting, uniqueness) ---- *)
+Section Emit.
+  Variable exclmatch : str -> bool.
+  Variable cf : gcfg.
+
+  Definition fmt (dir_only : bool) (h : str * bool) : str :=
+    if dir_only || (g_mark cf && snd h) then pjoin (fst h) [] else fst h.
+  Definition kept (h : str * bool) : bool := negb (is_excluded exclmatch cf (fst h) (snd h)).
+  Definition key_of (p : str) : str :=
+    let k0 := if g_pathlib cf then pathlib_norm p else p in if g_cs cf then k0 else lower k0.
+
+  Lemma fp_true seen p d dir_only : format_path cf seen true p d dir_only = ([fmt dir_only (p, d)], seen).
+  Proof. reflexivity. Qed.
+  Lemma fp_false seen p d dir_only :
+    format_path cf seen false p d dir_only =
+    if existsb (str_eqb (key_of (fmt dir_only (p, d)))) seen then ([], seen)
+    else ([fmt dir_only (p, d)], key_of (fmt dir_only (p, d)) :: seen).
+  Proof. reflexivity. Qed.
+
+  Lemma emit_step_nounique dir_only : forall hits out seen,
+    fold_left (fun acc h =>
+                 let '(out, seen) := acc in
+                 let '(path, is_dir) := h in
+                 if is_excluded exclmatch cf path is_dir then (out, seen)
+                 else let '(o, seen') := format_path cf seen true path is_dir dir_only in (out ++ o, seen'))
+              hits (out, seen)
+    = (out ++ map (fmt dir_only) (filter kept hits), seen).
+  Proof.
+    induction hits as [|[p d] hits IH]; intros out seen; cbn [fold_left filter map].
+    - rewrite app_nil_r. reflexivity.
+    - unfold kept at 1. cbn [fst snd]. destruct (is_excluded exclmatch cf p d); cbn [negb].
+      + apply IH.
+      + rewrite fp_true. rewrite IH. cbn [map]. rewrite <- app_assoc. reflexivity.
+  Qed.
+
+  (* NOUNIQUE: the output is the concatenation, in order, of the formatted non-excluded hits (duplicates kept) *)
+  Theorem emit_nounique seen hits dir_only :
+    emit exclmatch cf seen true hits dir_only = (map (fmt dir_only) (filter kept hits), seen).
+  Proof. unfold emit. rewrite emit_step_nounique. reflexivity. Qed.
+
+  Lemma str_eqb_true a : forall b, str_eqb a b = true -> a = b.
+  Proof.
+    induction a as [|c a IHa]; destruct b as [|d b]; cbn [str_eqb]; intro H; try discriminate; [reflexivity|].
+    apply andb_prop in H as [H1 H2]. apply N.eqb_eq in H1. subst. f_equal. apply IHa. exact H2.
+  Qed.
+  Lemma str_eqb_refl a : str_eqb a a = true.
+  Proof. induction a as [|c a IHa]; cbn [str_eqb]; [reflexivity|]. rewrite N.eqb_refl. exact IHa. Qed.
+  Lemma existsb_str_eqb k l : existsb (str_eqb k) l = true <-> In k l.
+  Proof.
+    rewrite existsb_exists. split.
+    - intros [x [Hx He]]. apply str_eqb_true in He. subst. exact Hx.
+    - intros H. exists k. split; [exact H|apply str_eqb_refl].
+  Qed.
+
+  (* unique mode: under whichever case rule is in force (and pathlib normalisation) no key is emitted twice, none
+     that was already seen is emitted, every non-excluded hit's key is seen afterwards, and every emitted path is a
+     formatted non-excluded hit *)
+  Definition uinv (seen0 : list str) (out seen : list str) : Prop :=
+    NoDup (map key_of out) /\ (forall o, In o out -> In (key_of o) seen /\ ~ In (key_of o) seen0) /\
+    (forall k, In k seen0 -> In k seen) /\ (forall k, In k seen -> In k seen0 \/ exists o, In o out /\ key_of o = k).
+
+  Theorem emit_unique seen0 hits dir_only out seen :
+    emit exclmatch cf seen0 false hits dir_only = (out, seen) ->
+    uinv seen0 out seen /\
+    (forall o, In o out -> exists h, In h hits /\ kept h = true /\ o = fmt dir_only h) /\
+    (forall h, In h hits -> kept h = true -> In (key_of (fmt dir_only h)) seen).
+  Proof.
+    unfold emit.
+    assert (G : forall hits out0 s0 out seen,
+      uinv seen0 out0 s0 ->
+      fold_left (fun acc h =>
+                 let '(out, seen) := acc in
+                 let '(path, is_dir) := h in
+                 if is_excluded exclmatch cf path is_dir then (out, seen)
+                 else let '(o, seen') := format_path cf seen false path is_dir dir_only in (out ++ o, seen'))
+              hits (out0, s0) = (out, seen) ->
+      uinv seen0 out seen /\
+      (forall o, In o out -> In o out0 \/ exists h, In h hits /\ kept h = true /\ o = fmt dir_only h) /\
+      (forall h, In h hits -> kept h = true -> In (key_of (fmt dir_only h)) seen) /\
+      (forall k, In k s0 -> In k seen)).
+    { clear hits out seen. induction hits as [|[p d] hits IH]; intros out0 s0 out seen Hinv H; cbn [fold_left] in H.
+      - injection H as <- <-. split; [exact Hinv|]. split; [intros o Ho; left; exact Ho|]. split; [intros h []|auto].
+      - destruct (is_excluded exclmatch cf p d) eqn:Ex.
+        + destruct (IH _ _ _ _ Hinv H) as [A [B [C D]]]. split; [exact A|]. split.
+          * intros o Ho. destruct (B o Ho) as [X|[h [X1 X2]]]; [left; exact X|right; exists h; split; [right; exact X1|exact X2]].
+          * split; [|exact D]. intros h [<-|Hh] Hk; [unfold kept in Hk; cbn [fst snd] in Hk; rewrite Ex in Hk; discriminate|apply C; assumption].
+        + rewrite fp_false in H.
+          set (o1 := fmt dir_only (p, d)) in *.
+          destruct (existsb (str_eqb (key_of o1)) s0) eqn:Es.
+          * rewrite app_nil_r in H. destruct (IH _ _ _ _ Hinv H) as [A [B [C D]]]. split; [exact A|]. split.
+            -- intros o Ho. destruct (B o Ho) as [X|[h [X1 X2]]]; [left; exact X|right; exists h; split; [right; exact X1|exact X2]].
+            -- split; [|exact D]. intros h [<-|Hh] Hk; [apply D; apply existsb_str_eqb; exact Es|apply C; assumption].
+          * assert (Hn : ~ In (key_of o1) s0) by (intro X; apply existsb_str_eqb in X; congruence).
+            destruct Hinv as [I1 [I2 [I3 I4]]].
+            assert (Hinv' : uinv seen0 (out0 ++ [o1]) (key_of o1 :: s0)).
+            { split; [|split; [|split]].
+              - rewrite map_app. cbn [map]. apply NoDup_app_one; [exact I1|].
+                intro X. apply in_map_iff in X as [o' [E Ho']]. apply Hn. rewrite <- E. apply (I2 o' Ho').
+              - intros o Ho. apply in_app_or in Ho as [Ho|[<-|[]]].
+                + destruct (I2 o Ho) as [X Y]. split; [right; exact X|exact Y].
+                + split; [left; reflexivity|]. intro X. apply Hn. apply I3. exact X.
+              - intros k Hk. right. apply I3. exact Hk.
+              - intros k [<-|Hk]; [right; exists o1; split; [apply in_or_app; right; left; reflexivity|reflexivity]|].
+                destruct (I4 k Hk) as [X|[o [X1 X2]]]; [left; exact X|right; exists o; split; [apply in_or_app; left; exact X1|exact X2]]. }
+            destruct (IH _ _ _ _ Hinv' H) as [A [B [C D]]]. split; [exact A|]. split.
+            -- intros o Ho. destruct (B o Ho) as [X|[h [X1 X2]]].
+               ++ apply in_app_or in X as [X|[<-|[]]]; [left; exact X|].
+                  right. exists (p, d). split; [left; reflexivity|]. split; [unfold kept; cbn [fst snd]; rewrite Ex; reflexivity|reflexivity].
+               ++ right. exists h. split; [right; exact X1|exact X2].
+            -- split.
+               ++ intros h [<-|Hh] Hk; [apply D; left; reflexivity|apply C; assumption].
+               ++ intros k Hk. apply D. right. exact Hk. }
+    intros H.
+    assert (I0 : uinv seen0 [] seen0).
+    { split; [constructor|]. split; [intros o []|]. split; [auto|]. intros k Hk. left. exact Hk. }
+    destruct (G _ _ _ _ _ I0 H) as [A [B [C D]]]. split; [exact A|]. split; [|exact C].
+    intros o Ho. destruct (B o Ho) as [[]|X]. exact X.
+  Qed.
+End Emit.
+
+Lemma excluded_dir_slash exclmatch cf path :
+  g_has_excl cf = true -> ends_with [cSLc] path = false ->
+  is_excluded exclmatch cf path true = exclmatch (path ++ [cSLc]) /\ is_excluded exclmatch cf path false = exclmatch path.
+Proof. intros H1 H2. unfold is_excluded. rewrite H1, H2. split; reflexivity. Qed.
